@@ -1136,6 +1136,29 @@ fn exec_seq(out: &mut Out, ctx: &mut Ctx, line: &str) -> Option<(String, bool)> 
             }
             Some((format!("{} {}", idx, render(&json!(toks))), !toks.is_empty()))
         }
+        "jpd" => {
+            // jpd i D <suffix P>: eval_json_pointer on a document that really is D levels deep (built here, not parsed)
+            let d: usize = w[2].parse().expect("depth");
+            let suffix = unpword(w[3]);
+            let mut v = json!({"target": 1, "k": [0, 1]});
+            for i in (0..d).rev() {
+                let mut m = Map::new();
+                m.insert(format!("d{i}"), v);
+                v = Value::Object(m);
+            }
+            let p: String = (0..d).map(|i| format!("/d{i}")).collect::<String>() + &suffix;
+            let r = repe::eval_json_pointer(&v, &p);
+            if let Some(toks) = o_parse(&p) {
+                if p.starts_with('/') && p != "/" && o_resolve(&v, &toks).ok() != r {
+                    out.oracle_fail("registry.json_pointer.evaluate", &format!("evaluate(<chain of depth {}>, …{}) = {:?}, the document holds {:?}", d, pword(&suffix), r.map(render), o_resolve(&v, &toks).ok().map(render)), &[line.to_string()]);
+                }
+            }
+            let toks = repe::parse_json_pointer(&p);
+            let obs = format!("{} {} {}", idx, match r { Some(x) => format!("some {}", render(x)), None => "none".into() }, toks.len());
+            let hit = r.is_some();
+            // drop the deep value iteratively enough: 4096 levels are fine for the recursive drop
+            Some((obs, hit))
+        }
         "jpe" => {
             let v = unjword(w[2]);
             let p = unpword(w[3]);
@@ -1288,6 +1311,7 @@ fn enum_go(out: &mut Out, e: &mut EnumCtx, depth: usize, snap: &Snapshot, trail:
         let sys = Sys::from_snapshot(snap);
         return fnv_line(h, &sys.dump(false));
     }
+    heartbeat();
     for op in &e.dom.ops {
         let mut sys = Sys::from_snapshot(snap);
         trail.push(op_line(op));
@@ -1445,6 +1469,7 @@ fn run_conc_many(sc: &Scenario, iters: u64) -> BTreeMap<String, (Outcome, u64)> 
             });
         }
         for it in 1..=iters as usize {
+            heartbeat();
             let mut sys = Sys::new();
             for op in &sc.setup {
                 let _ = sys.apply(op);
@@ -1681,6 +1706,7 @@ fn exec_watch(out: &mut Out, line: &str) {
     let states: Vec<Vec<String>> = wt.watchers.iter().map(|op| watch_states(&wt, op)).collect();
     let mut seen: BTreeMap<String, Vec<Vec<String>>> = BTreeMap::new();
     for _ in 0..iters {
+        heartbeat();
         let o = run_watch(&wt);
         let key = o.iter().map(|v| format!("V {}", v.join(" "))).collect::<Vec<_>>().join(" ");
         if seen.len() < 12 || seen.contains_key(&key) {
@@ -1869,6 +1895,35 @@ fn gen_sequence(r: &mut Rng, k: &mut u64, ops: &mut Vec<String>, max_len: u64, t
     let mut g = SeqGen { pool: (0..r.range(2, 4)).map(|_| gen_pointer(r, 3)).collect() };
     let n = r.range(5, max_len);
     let mut tag = 0u64;
+    if r.chance(1, 5) {
+        // a FULL registry: 12–20 values and 12–16 callables (all kinds) registered in shuffled, non-sorted order, so that
+        // the rare events below (replacing a callable whose Drop panics, root replacement, scalar ancestors overwritten,
+        // runs of identical calls) happen with many entries in both maps
+        let mut prelude: Vec<String> = Vec::new();
+        for _ in 0..r.range(12, 20) {
+            let p = if r.chance(1, 2) { gen_pointer(r, 2) } else { g.pointer(r) };
+            g.pool.push(p.clone());
+            prelude.push(OpR::RegV(p, gen_value(r, 1)).words());
+        }
+        for _ in 0..r.range(12, 16) {
+            tag += 1;
+            let fail = match r.below(8) {
+                0 => Some(*r.pick(&[0u32, 1, 2, 3, 4, 5, 6, 7, 8, 9, 4096])),
+                1 => Some(*r.pick(&[1_000_001u32, 1_000_002, 1_000_003])),
+                2 => Some(3_000_000),
+                3 | 4 => Some(4_000_000),
+                _ => None,
+            };
+            tags.push((tag, fail));
+            let p = if r.chance(1, 2) { gen_pointer(r, 2) } else { g.pointer(r) };
+            g.pool.push(p.clone());
+            prelude.push(OpR::RegF(p, tag, fail).words());
+        }
+        r.shuffle(&mut prelude);
+        for op in prelude {
+            next(ops, op);
+        }
+    }
     for i in 0..n {
         let op = match r.below(100) {
             0..=13 => {
@@ -1883,7 +1938,7 @@ fn gen_sequence(r: &mut Rng, k: &mut u64, ops: &mut Vec<String>, max_len: u64, t
                 } else {
                     tag += 1;
                     let fail = match r.below(20) {
-                        0..=2 => Some(*r.pick(&[4u32, 9, 4096, 0, 6, 8])),
+                        0..=2 => Some(*r.pick(&[0u32, 1, 2, 3, 4, 5, 6, 7, 8, 9, 4096])),
                         3 => Some(*r.pick(&[1_000_001u32, 1_000_002, 1_000_003])),
                         4 => Some(2_000_000),
                         5 | 6 => Some(3_000_000),
@@ -2014,6 +2069,13 @@ fn gen_deep(r: &mut Rng, k: &mut u64, ops: &mut Vec<String>, depth: usize) {
 }
 
 fn gen_jp(r: &mut Rng, k: &mut u64, ops: &mut Vec<String>, n: usize) {
+    // the public JSON-pointer functions on documents that really are deep: existing and missing targets
+    for d in [1usize, 16, 17, 63, 64, 65, 127, 128, 129, 255, 257, 1000] {
+        for suffix in ["/target", "/k/1", "/k/+1", "/missing", "", "/k/2", "/target/x"] {
+            ops.push(format!("jpd {} {} {}", *k, d, pword(suffix)));
+            *k += 1;
+        }
+    }
     const PIECES: &[&str] = &["-", "a", "b", "~0", "~1", "~", "~2", "~01", "~10", "~~", "0", "1", "01", "+1", "", "é", "/", "//", "x"];
     for i in 0..n {
         let d = r.below(5);
@@ -2140,6 +2202,10 @@ fn race_scenarios() -> Vec<Scenario> {
 static OP_STARTED: std::sync::atomic::AtomicU64 = std::sync::atomic::AtomicU64::new(0);
 static CURRENT: Mutex<(String, Vec<String>)> = Mutex::new((String::new(), Vec::new()));
 
+fn heartbeat() {
+    OP_STARTED.store(now_ms(), Ordering::SeqCst);
+}
+
 fn now_ms() -> u64 {
     std::time::SystemTime::now().duration_since(std::time::UNIX_EPOCH).unwrap().as_millis() as u64
 }
@@ -2153,7 +2219,8 @@ fn start_watchdog(dir: std::path::PathBuf, family: String) {
         if t0 != 0 && now_ms().saturating_sub(t0) > limit {
             let (line, mut trail) = CURRENT.lock().map(|g| g.clone()).unwrap_or_default();
             trail.push(line.clone());
-            let v = json!({"sig": "registry.call.deadlock", "detail": format!("the registry did not answer within {} s: {}", limit / 1000, line), "ops": trail});
+            let sig = if line.starts_with("conc") || line.starts_with("watch") { "registry.conc.no_progress" } else { "registry.call.deadlock" };
+            let v = json!({"sig": sig, "detail": format!("the registry did not answer within {} s: {}", limit / 1000, line.chars().take(400).collect::<String>()), "ops": trail});
             use std::io::Write as _;
             if let Ok(mut f) = std::fs::OpenOptions::new().append(true).open(dir.join("oracle.txt")) {
                 let _ = writeln!(f, "{}", v);
@@ -2161,6 +2228,54 @@ fn start_watchdog(dir: std::path::PathBuf, family: String) {
             std::process::exit(3);
         }
     });
+}
+
+/// (file, public entry points this family drives).  Anything else that is `pub fn` in these files of the tree under
+/// test is reported (`not_driven` in stats.json, stderr): a new twin must not go unnoticed.
+const DRIVEN: &[(&str, &[&str])] = &[
+    ("registry.rs", &["code", "new", "set_root", "register_value", "merge_root", "merge_at", "register_function", "register_function_arc", "read_value", "dispatch", "dispatch_with_ctx", "decode_body"]),
+    ("json_pointer.rs", &["parse", "evaluate"]),
+];
+/// server.rs has entry points of many properties; the registry mount is reached through these (all driven)
+const DRIVEN_SERVER: &[&str] = &["with_registry", "register_registry", "get", "with_middleware", "new", "listen", "serve"];
+
+fn entry_point_audit(out: &mut Out) -> Vec<String> {
+    let repo = std::env::var("VERIF_REPO").unwrap_or_else(|_| "/repo".into());
+    let mut missing = Vec::new();
+    let names = |file: &str| -> Vec<String> {
+        let text = std::fs::read_to_string(std::path::Path::new(&repo).join("src").join(file)).unwrap_or_default();
+        let text = text.split("#[cfg(test)]").next().unwrap_or("").to_string();
+        let mut v: Vec<String> = Vec::new();
+        for line in text.lines() {
+            let t = line.trim_start();
+            for pre in ["pub async fn ", "pub fn ", "pub(crate) fn "] {
+                if let Some(rest) = t.strip_prefix(pre) {
+                    let n: String = rest.chars().take_while(|c| c.is_alphanumeric() || *c == '_').collect();
+                    if !n.is_empty() && !v.contains(&n) {
+                        v.push(n);
+                    }
+                }
+            }
+        }
+        v
+    };
+    for (file, driven) in DRIVEN {
+        let found = names(file);
+        for n in &found {
+            if !driven.contains(&n.as_str()) {
+                missing.push(format!("{}::{}", file, n));
+            }
+        }
+        out.add(&format!("entry_points.{}", file), found.len() as u64);
+    }
+    // in server.rs: anything whose name speaks of a registry
+    for n in names("server.rs") {
+        if n.contains("registr") && !DRIVEN_SERVER.contains(&n.as_str()) {
+            missing.push(format!("server.rs::{}", n));
+        }
+    }
+    out.extra.insert("not_driven".into(), json!(missing));
+    missing
 }
 
 fn main() {
@@ -2171,6 +2286,13 @@ fn main() {
     }
     let mut out = Out::new(&args.out);
     start_watchdog(args.out.clone(), family.clone());
+    let missing = entry_point_audit(&mut out);
+    if !missing.is_empty() {
+        eprintln!("registry: public entry points NOT DRIVEN by this family (add them to DRIVEN or say why not): {:?}", missing);
+    }
+    if args.has("--check-entry-points") {
+        std::process::exit(if missing.is_empty() { 0 } else { 1 });
+    }
     let mut rng = Rng::new(args.seed);
     let thorough = args.thorough();
     let ops: Vec<String> = if let Some(ops) = args.replay_ops() {
@@ -2230,8 +2352,9 @@ fn main() {
         out.begin(&line);
         *CURRENT.lock().unwrap() = (line.clone(), ctx.trail.clone());
         let name = line.split(' ').next().unwrap_or("");
-        // the watchdog times single registry calls, not the composite lines (an enumeration, a race loop)
-        OP_STARTED.store(if name == "enum" || name == "conc" || name == "watch" { 0 } else { now_ms() }, Ordering::SeqCst);
+        // the watchdog fires when nothing has made progress for 20 s: single calls, or one iteration / node of the composite
+        // lines (race loop, watch, enumeration), which report a heartbeat each
+        heartbeat();
         match name {
             "conc" => exec_conc(&mut out, &line),
             "watch" => exec_watch(&mut out, &line),
